@@ -68,6 +68,16 @@ theorem parser_reset_complete :
     read (RunCallExpr reads R0 only when Count() > 0) -/
 theorem plreg_reset : plregAssignedByReset.contains "count" = true := by decide
 
+/-- v2 (runtimev2): a loaded script is plain data (name, statements, function table) and every
+    `Run` and `Check` begins by making the task it works on — no task, frame or register outlives a
+    run, and runtime.go holds no package-level state (the v2 interpreter model starts every run from
+    `{ name, scopes := [[]] }`, which is what `NewTask` builds) -/
+theorem v2_run_starts_from_a_new_task :
+    v2ScriptFields = ["Name", "Stmts", "Fn"] ∧ v2RunMakesTask = true ∧ v2CheckMakesTask = true ∧
+    v2RuntimeVars = [] ∧
+    v2TaskFields = ["name", "private", "funcs", "Regs", "stackHeader", "stackCur", "loopBreak", "loopContinue",
+                    "signal", "procExit"] := by decide
+
 /-! non-vacuity: a two-field object, reset of both fields, a reader of both -/
 example : (fun (o : Obj) => o "a" + o "b") (reset ["a", "b"] (fun _ => 7) (fun _ => 99)) = 14 := by
   simp [reset]
